@@ -341,6 +341,22 @@ def show_frac(q):
     q = Fraction(q)
     return str(q.numerator) if q.denominator == 1 else f'{q.numerator}/{q.denominator}'
 
+def measure_timing(tm):
+    """wall time (us, best of up to 3) of the three programs of a scaling measurement: small (n_small, k steps), base (n_big, 0 steps), big (n_big, k steps)"""
+    best = {}
+    for key in ('small', 'base', 'big'):
+        ts = []
+        for _ in range(3):
+            o = nlrun(['#TIMED ' + tm[key]], 'release')[0]
+            mm = re.match(r'T (\d+) (.*)', o)
+            if mm and mm.group(2).startswith('OK'): ts.append(int(mm.group(1)))
+            if ts and ts[-1] > 1_500_000: break            # clearly slow already: do not repeat
+        best[key] = min(ts) if ts else None
+    return best
+def timing_is_slow(tm, best):
+    if best.get('small') is None or best.get('big') is None: return None
+    return best['big'] > tm.get('ratio', 5) * max(best['small'], best.get('base') or 0, 5000)
+
 def finish(prop, tier, seed, merged, t0, level='model_checking', bounds=None, outside=None, assumptions=None, kernels=None, th=None,
            validated=0, validation_failures=None, extra_cov=None, kani=None):
     """replay counterexamples natively, match known findings, write evidence, print verdict, return exit code"""
@@ -350,16 +366,12 @@ def finish(prop, tier, seed, merged, t0, level='model_checking', bounds=None, ou
     # ---- allocation-behaviour counterexamples (C02) replay as a scaling measurement: the same k mutations on a collection of
     #      size n_small and n_big; in-place mutation costs the same, a hidden copy per step scales with n
     tspecs = [v for v in viol if v.get('replay') and v['replay'].get('timing')]
+    tcache = {}
     for v in tspecs:
-        tm = v['replay']['timing']; best = {}
-        for prof in ('release',):
-            for key in ('small', 'base', 'big'):
-                ts = []
-                for _ in range(3):
-                    o = nlrun(['#TIMED ' + tm[key]], prof)[0]
-                    mm = re.match(r'T (\d+) (.*)', o)
-                    if mm and mm.group(2).startswith('OK'): ts.append(int(mm.group(1)))
-                best[key] = min(ts) if ts else None
+        tm = v['replay']['timing']
+        key_ = tm['big']
+        if key_ not in tcache: tcache[key_] = measure_timing(tm)
+        best = tcache[key_]
         v['native'] = {'small_us': best.get('small'), 'big_us': best.get('big')}
         if best.get('small') is None or best.get('big') is None: v['replay']['program'] = None; continue
         # small: size n_small with k mutations; base: size n_big with no mutation (construction cost); big: size n_big with k mutations
